@@ -996,17 +996,7 @@ impl Translator {
                 match &*func.kind {
                     ExprKind::Variable(_) => {
                         let decl = &self.statics.resolution_map[&func.id];
-                        if let Some(reordered_args) =
-                            self.statics.function_call_arg_order.get(&expr.id).cloned()
-                        {
-                            for arg_val in reordered_args {
-                                self.translate_expr(&arg_val, offset_table, mono, st);
-                            }
-                        } else {
-                            for arg in args {
-                                self.translate_expr(&arg.val, offset_table, mono, st);
-                            }
-                        }
+                        self.translate_call_args(expr, args, offset_table, mono, st);
                         self.translate_func_call(decl, func.node(), offset_table, mono, st);
                     }
                     ExprKind::MemberAccess(receiver_expr, fname) => {
@@ -1016,33 +1006,12 @@ impl Translator {
                         // }
 
                         let decl = &self.statics.resolution_map[&fname.id];
-                        if let Some(reordered_args) =
-                            self.statics.function_call_arg_order.get(&expr.id).cloned()
-                        {
-                            self.translate_receiver(receiver_expr, offset_table, mono, st);
-                            for arg_val in reordered_args {
-                                self.translate_expr(&arg_val, offset_table, mono, st);
-                            }
-                        } else {
-                            self.translate_receiver(receiver_expr, offset_table, mono, st);
-                            for arg in args {
-                                self.translate_expr(&arg.val, offset_table, mono, st);
-                            }
-                        }
+                        self.translate_receiver(receiver_expr, offset_table, mono, st);
+                        self.translate_call_args(expr, args, offset_table, mono, st);
                         self.translate_func_call(decl, fname.node(), offset_table, mono, st);
                     }
                     ExprKind::MemberAccessLeadingDot(fname) => {
-                        if let Some(reordered_args) =
-                            self.statics.function_call_arg_order.get(&expr.id).cloned()
-                        {
-                            for arg_val in reordered_args {
-                                self.translate_expr(&arg_val, offset_table, mono, st);
-                            }
-                        } else {
-                            for arg in args {
-                                self.translate_expr(&arg.val, offset_table, mono, st);
-                            }
-                        }
+                        self.translate_call_args(expr, args, offset_table, mono, st);
 
                         let decl = &self.statics.resolution_map[&fname.id];
                         self.translate_func_call(decl, fname.node(), offset_table, mono, st);
@@ -3305,6 +3274,28 @@ impl Translator {
             }
             PatKind::Bool(..) | PatKind::Int(..) | PatKind::Float(..) | PatKind::Str(..) => {
                 self.emit(st, Instr::Pop);
+            }
+        }
+    }
+
+    // Evaluate the arguments of a call, see call_arg_exprs.
+    fn translate_call_args(
+        &self,
+        call: &Expr,
+        args: &[FuncCallArg],
+        offset_table: &OffsetTable,
+        mono: &MonomorphEnv,
+        st: &mut TranslatorState,
+    ) {
+        for arg_val in self.call_arg_exprs(call, args) {
+            let written_at_call = args.iter().any(|arg| Rc::ptr_eq(&arg.val, &arg_val));
+            let (file, lineno) = (st.curr_file, st.curr_lineno);
+            self.translate_expr(&arg_val, offset_table, mono, st);
+            if !written_at_call {
+                // A default value is located at the declaration, possibly in another file. What
+                // comes after it, the call itself included, is located at the call again.
+                st.curr_file = file;
+                st.curr_lineno = lineno;
             }
         }
     }
